@@ -17,7 +17,7 @@ CHECKS = {
  "C10": ("E1 api-sim","exploration","seeded histories of area creation/anywhere/stack/resize/prot with requests placed relative to existing areas; interval-set model; bounded liveness of the retry loops through the fuel seam","5 C10","seeded history simulation against an interval-set model, fuel-bounded liveness"),
  "C11": ("E2 run-sim","exploration","three drivers of one scenario (one execute(), step loop, execute bursts pre-empted by limits) must agree; per-step oracle on count/return/RIP/finished; stepping after finish/limit must fail and change nothing","5 C11","schedule-equivalence simulation (step vs execute vs pre-empted bursts) with scripted hooks"),
  "C12": ("E2 run-sim","exploration","hook-protocol automaton over programs with scripted hooks (unhandled/handled/stop/error/mutate/re-entrant register), registration attempted after failed steps, stops, finish, limit and from inside hooks","5 C12","multi-party callback-protocol simulation with failing/stopping/re-entrant hooks"),
- "C18": ("E2 run-sim","exploration","independent tracer (iced decode + observed RIP) against structured trace and call stack after every step, renderers called on every error path, unbalanced returns and faulting endings generated on purpose","5 C18","seeded program simulation with an independent control-flow tracer"),
+ "C18": ("E2 run-sim","exploration","independent tracer (iced decode + observed RIP) against structured trace and call stack after every step, rendered trace()/call_stack() text checked against the structured view, renderers called on every error path, unbalanced returns, deep recursion, redirected indirect jumps and faulting endings generated on purpose","5 C18","seeded program simulation with an independent control-flow tracer"),
  "C20": ("E2 run-sim + E5 insn-sim","exploration","two machines differing only in the RNG-seam stream (and a second process with different HashMap keys via the audit) compared per step and at the end, a third of them loaded from ELF images with aliased symbols (rendered texts compared); plus every catalogue form x operand shape stepped on two machines that differ only in the registers the instruction does not mention","5 C20","paired-machine determinism simulation varying RNG seam, symbol aliasing and process"),
 }
 import os
